@@ -107,7 +107,7 @@ Qed.
 (** * Witnesses: the model reproduces what the real implementation did, and the property fails there *)
 Definition model_obs (x : ecase * list Z * eobs) : eobs :=
   let '(c, mods, _) := x in
-  let '(W, ok) := run_tx (e_order c) (world_of c mods) (e_value c) (e_top c) in observe c W ok.
+  let '(W, ok) := run_tx (e_order c) (world_of c mods) (e_value c) (e_top c) in observe c W ok (run_tx_logs (e_order c) (world_of c mods) (e_value c) (e_top c)).
 Definition impl_obs (x : ecase * list Z * eobs) : eobs := snd x.
 
 (** K6: EOA delegates 1000 with 1499 pending rewards: the rewards are burned *)
